@@ -521,67 +521,102 @@ Lemma mapping_release_idempotent_witness :
   fst s = {| counter := 1; live := 1 |} /\ snd s = [MDone; MLive; MRefused].
 Proof. vm_compute. auto. Qed.
 
-(* ---------------------------------------------------------------- 3b. release as events: idempotence *)
+(* ---------------------------------------------------------------- 3b. the slot as events: exact count, idempotent release *)
+Lemma countb_split {A} (p q r : A -> bool) l :
+  (forall x, p x = q x || r x) -> (forall x, q x && r x = false) -> countb p l = countb q l + countb r l.
+Proof.
+  intros Hp Hd. induction l as [|x t IH]; cbn; [reflexivity|]. rewrite IH, (Hp x). specialize (Hd x).
+  destruct (q x), (r x); cbn in *; try discriminate; lia.
+Qed.
+
 Section Holder.
   Variable max : nat.
 
   Definition h_ok (lo : hloc) : Prop := h_holding lo = true -> h_acquired lo = true.
+  (* counter = holders; the holders admitted against a KNOWN limit are within it *)
   Definition HInv (s : Z * list hloc) : Prop :=
-    fst s = Z.of_nat (countb h_holding (snd s)) /\ Forall h_ok (snd s) /\ (0 < max -> (fst s <= Z.of_nat max)%Z).
+    fst s = Z.of_nat (countb h_holding (snd s)) /\ Forall h_ok (snd s) /\
+    (0 < max -> countb h_known_holding (snd s) <= max).
 
-  Lemma h_step s i : HInv s -> HInv (sys_step _ _ (hstep true max) s i).
+  Lemma h_split ls : countb h_holding ls = countb h_known_holding ls + countb h_fault_holding ls.
+  Proof.
+    apply countb_split; intros [t a h f]; unfold h_known_holding, h_fault_holding; cbn; destruct h, f; reflexivity.
+  Qed.
+
+  Lemma h_step s i : HInv s -> HInv (sys_step _ _ (hstep true true max) s i).
   Proof.
     destruct s as [c ls]. unfold HInv, sys_step. cbn [fst snd]. intros (Hc & Hf & Hm).
     destruct (nth_error ls i) as [lo|] eqn:E; [|cbn [fst snd]; auto].
     pose proof (fun x => countb_upd_nth h_holding ls i lo x E) as HA.
+    pose proof (fun x => countb_upd_nth h_known_holding ls i lo x E) as HK.
+    pose proof (h_split ls) as HS.
     pose proof (Forall_nth_error _ _ _ _ Hf E) as Hlo. unfold h_ok in Hlo.
     assert (FU : forall x, h_ok x -> Forall h_ok (upd_nth i x ls)) by (intros x Hx; apply Forall_upd_nth; assumption).
-    destruct lo as [todo acq hold]. unfold hstep. cbn [h_todo h_acquired h_holding] in *.
-    destruct todo as [|[|] r].
-    - specialize (HA {| h_todo := []; h_acquired := acq; h_holding := hold |}). cbn in HA |- *.
-      split; [lia|]. split; [apply FU; unfold h_ok; cbn; exact Hlo|exact Hm].
-    - destruct acq.
-      + match goal with |- context [upd_nth i ?x ls] => specialize (HA x) end. cbn in HA |- *.
-        split; [lia|]. split; [apply FU; unfold h_ok; cbn; auto|exact Hm].
-      + assert (hold = false) by (destruct hold; [specialize (Hlo eq_refl); discriminate|reflexivity]). subst hold.
-        destruct ((0 <? max) && (Z.of_nat max <=? c)%Z) eqn:Ec;
-          match goal with |- context [upd_nth i ?x ls] => specialize (HA x) end; cbn in HA |- *.
-        * split; [lia|]. split; [apply FU; unfold h_ok; cbn; auto|exact Hm].
-        * split; [lia|]. split; [apply FU; unfold h_ok; cbn; auto|].
-          intros Hx. apply andb_false_iff in Ec. destruct Ec as [Ec|Ec]; [apply Nat.ltb_ge in Ec; lia|apply Z.leb_gt in Ec; lia].
-    - destruct hold; cbn [orb];
-        match goal with |- context [upd_nth i ?x ls] => specialize (HA x) end; cbn in HA |- *.
-      + split; [lia|]. split; [apply FU; unfold h_ok; cbn; discriminate|]. intros Hx. specialize (Hm Hx). lia.
-      + split; [lia|]. split; [apply FU; unfold h_ok; cbn; discriminate|exact Hm].
+    destruct lo as [todo acq hold bf]. unfold hstep. cbn [h_todo h_acquired h_holding h_byfault] in *.
+    destruct todo as [|[| |] r]; destruct acq, hold, bf; cbn [orb negb andb];
+      try (exfalso; specialize (Hlo eq_refl); discriminate);
+      try destruct ((0 <? max) && (Z.of_nat max <=? c)%Z) eqn:Ec;
+      match goal with |- context [upd_nth i ?x ls] => specialize (HA x); specialize (HK x) end;
+      cbn in HA, HK |- *;
+      (split; [lia|]); (split; [apply FU; unfold h_ok; cbn; first [discriminate|auto]|]);
+      intros Hx; specialize (Hm Hx);
+      try (apply andb_false_iff in Ec; destruct Ec as [Ec|Ec]; [apply Nat.ltb_ge in Ec|apply Z.leb_gt in Ec]);
+      lia.
   Qed.
 
-  Lemma h_all c ts sched : HInv (c, ts) -> HInv (hrun true max c ts sched).
+  Lemma h_all c ts sched : HInv (c, ts) -> HInv (hrun true true max c ts sched).
   Proof. intros H. unfold hrun. apply inv_all_schedules; [intros s i; apply h_step|exact H]. Qed.
 End Holder.
 
 Lemma h_fresh (scripts : list (list hev)) :
-  countb h_holding (map h_new scripts) = 0 /\ Forall h_ok (map h_new scripts).
+  countb h_holding (map h_new scripts) = 0 /\ countb h_known_holding (map h_new scripts) = 0 /\ Forall h_ok (map h_new scripts).
 Proof.
-  induction scripts as [|x t [I1 I2]]; cbn; [split; [reflexivity|constructor]|].
-  split; [exact I1|]. constructor; [unfold h_ok; cbn; discriminate|exact I2].
+  induction scripts as [|x t (I1 & I2 & I3)]; cbn; [split; [reflexivity|split; [reflexivity|constructor]]|].
+  split; [exact I1|]. split; [exact I2|]. constructor; [unfold h_ok; cbn; discriminate|exact I3].
 Qed.
 
-(* idempotent release: for EVERY sequence of acquire / release / release-again events of every connection and every schedule,
-   the counter equals the number of connections that hold a slot — so it never goes below zero — and stays within the limit *)
+(* for EVERY sequence of acquire / acquire-during-a-quota-fault / release / release-again events of every connection, any
+   number of connections and every schedule: the counter equals the number of connections that hold a slot (a connection
+   let through during a quota fault IS counted; nothing is released twice) — so it never goes below zero — and the holders
+   admitted against a known limit stay within it *)
 Theorem slot_release_idempotent max (scripts : list (list hev)) sched :
-  let s := hrun true max 0%Z (map h_new scripts) sched in
-  fst s = Z.of_nat (countb h_holding (snd s)) /\ (0 <= fst s)%Z /\ (0 < max -> (fst s <= Z.of_nat max)%Z).
+  let s := hrun true true max 0%Z (map h_new scripts) sched in
+  fst s = Z.of_nat (countb h_holding (snd s)) /\ (0 <= fst s)%Z /\ (0 < max -> countb h_known_holding (snd s) <= max).
 Proof.
-  intros s. destruct (h_fresh scripts) as [F1 F2].
+  intros s. destruct (h_fresh scripts) as (F1 & F2 & F3).
   assert (H : HInv max s).
-  { apply h_all. unfold HInv. cbn [fst snd]. rewrite F1. split; [reflexivity|]. split; [exact F2|]. intros; lia. }
+  { apply h_all. unfold HInv. cbn [fst snd]. rewrite F1, F2. split; [reflexivity|]. split; [exact F3|]. intros; lia. }
   destruct H as (Hc & _ & Hm). split; [exact Hc|]. split; [lia|exact Hm].
 Qed.
 
+(* without any quota fault in the scripts the plain bound follows: counter <= limit *)
+Lemma no_fault_known ls : Forall (fun lo => h_byfault lo = false) ls -> countb h_known_holding ls = countb h_holding ls.
+Proof.
+  induction 1 as [|lo t Hb _ IH]; cbn; [reflexivity|]. unfold h_known_holding at 1. rewrite Hb, IH.
+  destruct (h_holding lo); reflexivity.
+Qed.
+
 Lemma slot_release_not_idempotent_refuted :
-  exists sched, let s := hrun false 1 0%Z (map h_new [[HAcq; HRel; HRel]; [HAcq]; [HAcq]]) sched in
-                countb h_holding (snd s) = 2 /\ fst (hrun false 1 0%Z (map h_new [[HAcq; HRel; HRel]; [HAcq]; [HAcq]]) (firstn 3 sched)) = (-1)%Z.
+  exists sched, let s := hrun false true 1 0%Z (map h_new [[HAcq; HRel; HRel]; [HAcq]; [HAcq]]) sched in
+                countb h_holding (snd s) = 2 /\ fst (hrun false true 1 0%Z (map h_new [[HAcq; HRel; HRel]; [HAcq]; [HAcq]]) (firstn 3 sched)) = (-1)%Z.
 Proof. exists [0; 0; 0; 1; 2]. vm_compute. auto. Qed.
+
+(* admit-without-count on a quota fault (NOT the code): while the connection is open the counter under-reports, after its
+   release it is -1, and then three connections hold a slot against the known limit 2 *)
+Lemma slot_fault_admit_uncounted_refuted :
+  exists sched,
+    let scripts := map h_new [[HAcqFault; HRel]; [HAcq]; [HAcq]; [HAcq]] in
+    fst (hrun true false 2 0%Z scripts (firstn 1 sched)) = 0%Z /\
+    countb h_holding (snd (hrun true false 2 0%Z scripts (firstn 1 sched))) = 1 /\
+    fst (hrun true false 2 0%Z scripts (firstn 2 sched)) = (-1)%Z /\
+    countb h_known_holding (snd (hrun true false 2 0%Z scripts sched)) = 3.
+Proof. exists [0; 0; 1; 2; 3]. vm_compute. auto. Qed.
+
+(* the code on the same history: the fourth connection is refused *)
+Lemma slot_fault_admit_counted_witness :
+  let s := hrun true true 2 0%Z (map h_new [[HAcqFault; HRel]; [HAcq]; [HAcq]; [HAcq]]) [0; 0; 1; 2; 3] in
+  fst s = 2%Z /\ countb h_known_holding (snd s) = 2.
+Proof. vm_compute. auto. Qed.
 
 (* ---------------------------------------------------------------- 2b. Register split into evict ; insert *)
 (* the lock released around the evicted stream's Close(): the second Register finds room, the first inserts afterwards *)
